@@ -1518,6 +1518,32 @@ def specials(rng):
             yield "num:filter-data:" + filt, _r(_mini({4: Stream(d, data)}, res={"XObject": {"I": Ref(4)}}, page_extra={"Contents": Ref(4)}))
 
 
+def page_count_cases():
+    """page trees whose sibling /Count values are untrue and SUM beyond u32 (one planted number per file cannot do that):
+    the walk asks for pages n-2 … n+1, 2^31-1, 2^32-2 and 2^32-1, so `pos + tree.count` / `page_nr - pos` in PageTree::page_limited
+    and the count additions of the pages iterator meet every carry (the former C14-e; theorem C07_no_panic, imported)."""
+    I = 2 ** 31 - 1
+    for counts, root_count in (((I, I, I), 3), ((I, I, I), I), ((I, I, 2), I), ((I, 1, I, I), 4), ((0, I, I, I), 0), ((I, I), I), ((1, I, I, 1), -1),
+                               ((I, I, I, I, I), I)):
+        objs = {1: {"Type": N("Catalog"), "Pages": Ref(2)}}
+        kids = []
+        nxt = 3
+        for c in counts:
+            node, leaf = nxt, nxt + 1
+            nxt += 2
+            kids.append(Ref(node))
+            objs[node] = {"Type": N("Pages"), "Parent": Ref(2), "Kids": [Ref(leaf)], "Count": c}
+            objs[leaf] = {"Type": N("Page"), "Parent": Ref(node), "MediaBox": [0, 0, 9, 9], "Resources": {}}
+        objs[2] = {"Type": N("Pages"), "Kids": kids, "Count": root_count}
+        yield "num:PageTree.Count-sum=%s/root=%d" % ("+".join(map(str, counts)), root_count), W.simple_file(objs, 1)[0]
+        # the same with a leaf between the lying subtrees
+        leaf = nxt
+        o2 = dict(objs)
+        o2[leaf] = {"Type": N("Page"), "Parent": Ref(2), "MediaBox": [0, 0, 9, 9], "Resources": {}}
+        o2[2] = {"Type": N("Pages"), "Kids": kids[:2] + [Ref(leaf)] + kids[2:], "Count": root_count}
+        yield "num:PageTree.Count-sum-leaf=%s/root=%d" % ("+".join(map(str, counts)), root_count), W.simple_file(o2, 1)[0]
+
+
 def objstm_index_cases():
     """xref-stream rows of type 2 whose member index is the last valid one (N-1), exactly N (the first invalid one: an
     off-by-one in ObjectStream::get_object_slice indexes `offsets[N]`), N+1 and far beyond; object streams of 1, 2 and 3
@@ -1549,6 +1575,7 @@ def planted(rng, tier="quick"):
     yield from cycles(rng)
     yield from deep(rng)
     yield from objstm_index_cases()
+    yield from page_count_cases()
     yield from specials(rng)
     for fo in FOCI:
         doc = typed_doc(rng, fo)
